@@ -12,6 +12,7 @@ CHECKS = {
     "C05": checks_ns.check_c05,
     "C09": checks_wrap.check_c09,
     "C10": checks_wrap.check_c10,
+    "C11": checks_wrap.check_c11,
     "C12": checks_wrap.check_c12,
     "C15": checks_idm.check_c15,
     "C16": checks_copy.check_c16,
